@@ -116,7 +116,7 @@ def gen_cases(ctx):
             n = 4 * p + 50 if p <= 64 or ctx.thorough else 2 * p + 50
             if ind == "MAD" and p > 256:
                 n = p + 60   # the exact instance of MAD costs O(period) big-rational operations per step
-            style = rot.pick((ind, "n"), ["signed", "walk", "mixed", "ties", "uniform", "periodic", "tiny", "huge", "flatafter", "zeros", "segments"])
+            style = rot.pick((ind, "n"), ["signed", "walk", "mixed", "ties", "uniform", "periodic", "tiny", "huge", "flatafter", "zeros", "segments", "tight"])
             xs = scalar_stream(r, n, style, p=p)
             # plateaus and occasional huge/small magnitudes
             for _ in range(r.randint(0, 3)):
